@@ -18,7 +18,6 @@ import (
 	"io"
 	"net"
 	"net/http"
-	"net/http/httptest"
 	"net/url"
 	"os"
 	"sort"
@@ -31,6 +30,7 @@ import (
 	"github.com/uber/kraken/utils/httputil"
 	"pgregory.net/rapid"
 
+	"verif/internal/fakenet"
 	"verif/internal/pbt"
 )
 
@@ -90,7 +90,7 @@ var defaultRetryable = map[int]bool{429: true, 502: true, 503: true, 504: true}
 
 var allCodes = []int{200, 201, 202, 204, 400, 404, 409, 429, 500, 502, 503, 504}
 var extraPool = []int{400, 404, 409, 500}
-var acceptPool = []int{200, 201, 202, 204, 404, 409}
+var acceptPool = []int{200, 200, 201, 202, 204, 404, 409, 429, 503}
 
 var headerNames = []string{"X-Verif-A", "X-Verif-B", "Content-Type", "Authorization", "X-Kraken-Namespace", "Accept"}
 
@@ -514,7 +514,11 @@ func isDialError(err error) bool {
 func run(c Case) pbt.Verdict {
 	body := bodyBytes(c.BodySeed, c.BodySize)
 	fs := &fakeServer{script: c.Script, bodySize: c.BodySize, conns: map[string]int{}}
-	srv := httptest.NewServer(fs)
+	fakenet.InstallDefault()
+	srv, lerr := fakenet.Serve(fs)
+	if lerr != nil {
+		return pbt.Verdict{Discard: true} // infrastructure
+	}
 	defer srv.Close()
 
 	var opts []httputil.SendOption
@@ -573,7 +577,7 @@ func run(c Case) pbt.Verdict {
 	}
 	var tr *tripper
 	if c.OwnTransport {
-		base := &http.Transport{}
+		base := fakenet.NewTransport()
 		defer base.CloseIdleConnections()
 		tr = &tripper{base: base, srv: fs}
 		opts = append(opts, httputil.SendTransport(tr))
@@ -581,7 +585,7 @@ func run(c Case) pbt.Verdict {
 		defer http.DefaultTransport.(*http.Transport).CloseIdleConnections()
 	}
 
-	rawurl := srv.URL + c.Path
+	rawurl := srv.URL() + c.Path
 	if c.Query != "" {
 		rawurl += "?" + c.Query
 	}
@@ -610,7 +614,7 @@ func run(c Case) pbt.Verdict {
 				return pbt.Verdict{Discard: true}
 			}
 		}
-	} else if err != nil && strings.Contains(err.Error(), "dial tcp") {
+	} else if err != nil && strings.Contains(err.Error(), ": dial ") {
 		return pbt.Verdict{Discard: true}
 	}
 
@@ -710,10 +714,10 @@ func run(c Case) pbt.Verdict {
 		sig := "result or attempt count does not follow the retry rule"
 		if got.kind == 0 && want.kind != 0 {
 			sig = "success reported although no attempt got an accepted status"
+		} else if got.kind == 2 && err != nil && strings.Contains(err.Error(), "with Body length") {
+			sig = "retry could not resend the original body"
 		} else if attempts > want.attempts {
 			sig = "more attempts than the retry rule allows"
-		} else if got.kind == 2 && tr != nil && len(tr.errs) > 0 && tr.errs[len(tr.errs)-1] != nil && strings.Contains(tr.errs[len(tr.errs)-1].Error(), "with Body length") {
-			sig = "retry could not resend the original body"
 		}
 		return pbt.Fail("%s\ngot %s (%s), want %s; %s", sig, got, attemptsSrc, want, desc())
 	}
